@@ -1840,6 +1840,12 @@ func (w *Walker) call(fr *frame, c *ssa.CallCommon, in ssa.Instruction, rt types
 		for _, a := range args {
 			w.havoc(a, name)
 		}
+	} else if strings.HasPrefix(name, "(*") && len(args) >= 2 && args[0].Op == "ptr" && args[0].Cell != nil && !args[0].Cell.Sym && len(args[0].Path) == 0 {
+		// a standard decoder with a pointer receiver (`var v netip.AddrPort; v.UnmarshalBinary(b)`) fills its local
+		// receiver with a function of its input: the local is that decoding from here on, not the zero it started as
+		if i := strings.LastIndex(name, ")."); i > 0 && strings.HasPrefix(name[i+2:], "Unmarshal") {
+			args[0].Cell.Val = &Term{Op: "call", Name: "decoded:" + name, Args: args[1:], Typ: args[0].Cell.Typ, Pos: in.Pos()}
+		}
 	}
 	return t
 }
@@ -1929,9 +1935,29 @@ func (w *Walker) stdModel(name string, args []*Term, rt types.Type) *Term {
 		if len(args) == 1 && args[0].Op == "call" && args[0].Name == "netip.AddrPortFrom" && len(args[0].Args) == 2 {
 			return args[0].Args[1]
 		}
+		// ... and of the canonical constant "a.b.c.d:port"
+		if len(args) == 1 && args[0].Op == "call" && args[0].Name == "netip.MustParseAddrPort" && len(args[0].Args) == 1 {
+			if str, ok := args[0].Args[0].StrVal(); ok {
+				var a, b, c, d, port int64
+				if n, _ := fmt.Sscanf(str, "%d.%d.%d.%d:%d", &a, &b, &c, &d, &port); n == 5 && fmt.Sprintf("%d.%d.%d.%d:%d", a, b, c, d, port) == str && port >= 0 && port <= 65535 {
+					return mkInt(port, rt)
+				}
+			}
+		}
 	case "(netip.AddrPort).Addr":
 		if len(args) == 1 && args[0].Op == "call" && args[0].Name == "netip.AddrPortFrom" && len(args[0].Args) == 2 {
 			return args[0].Args[0]
+		}
+		if len(args) == 1 && args[0].Op == "call" && args[0].Name == "netip.MustParseAddrPort" && len(args[0].Args) == 1 {
+			if str, ok := args[0].Args[0].StrVal(); ok {
+				var a, b, c, d, port int64
+				if n, _ := fmt.Sscanf(str, "%d.%d.%d.%d:%d", &a, &b, &c, &d, &port); n == 5 && fmt.Sprintf("%d.%d.%d.%d:%d", a, b, c, d, port) == str {
+					if a == 0 && b == 0 && c == 0 && d == 0 {
+						return &Term{Op: "call", Name: "netip.IPv4Unspecified", Typ: rt}
+					}
+					return &Term{Op: "call", Name: "netip.MustParseAddr", Args: []*Term{mkConst(constant.MakeString(fmt.Sprintf("%d.%d.%d.%d", a, b, c, d)), types.Typ[types.String])}, Typ: rt}
+				}
+			}
 		}
 	case "netip.MustParseAddr":
 		// canonical form of the unspecified IPv4 address
@@ -2164,6 +2190,22 @@ func (w *Walker) builtin(name string, args []*Term, in ssa.Instruction, rt types
 			}
 		}
 		return &Term{Op: "fresh", Name: fmt.Sprintf("copied@%d", w.fresh("copy")), Typ: rt}
+	case "clear":
+		// clear(s) on storage this path knows element by element: every element of the view becomes zero
+		if dst := args[0]; dst.Op == "sref" && dst.Cell != nil && !dst.Cell.Sym {
+			if _, isSl := dst.Typ.Underlying().(*types.Slice); isSl {
+				lo, ok1 := dst.Args[0].Int64()
+				hi, ok2 := dst.Args[1].Int64()
+				if ok1 && ok2 && hi-lo <= 4096 {
+					w.event(Event{Kind: "clear", Name: "clear", Args: args, Pos: in.Pos(), Instr: in, Fn: fn, Depth: depth})
+					et := elemType(dst.Typ)
+					for i := lo; i < hi; i++ {
+						dst.Cell.Val = update(dst.Cell.Val, []string{fmt.Sprintf("#%d", i)}, zeroOf(et))
+					}
+					return &Term{Op: "tuple", Typ: rt}
+				}
+			}
+		}
 	case "close":
 		w.event(Event{Kind: "close", Name: args[0].String(), Args: args, Pos: in.Pos(), Instr: in, Fn: fn, Depth: depth})
 		return &Term{Op: "tuple", Typ: rt}
@@ -2306,9 +2348,29 @@ func (w *Walker) decide(c *Term) bool {
 	return w.boolAtom(c.String(), c)
 }
 
+// linkedAtom: ip.To4() is nil or four bytes long (documented), so "To4() is nil" and "AddrFromSlice(To4()) succeeds"
+// are one fact with opposite signs: deciding either decides the other.
+func linkedAtom(key string) (string, bool) {
+	const a, b = "isnil((net.IP).To4(", "netip.AddrFromSlice((net.IP).To4("
+	switch {
+	case strings.HasPrefix(key, a) && strings.HasSuffix(key, "))"):
+		return "netip.AddrFromSlice(" + key[len("isnil("):len(key)-1] + ")#1", true
+	case strings.HasPrefix(key, b) && strings.HasSuffix(key, "))#1"):
+		return "isnil(" + key[len("netip.AddrFromSlice("):len(key)-3] + ")", true
+	}
+	return "", false
+}
+
 func (w *Walker) boolAtom(key string, t *Term) bool {
 	if v, ok := w.state.Bools[key]; ok {
 		return v
+	}
+	if other, ok := linkedAtom(key); ok {
+		if ov, has := w.state.Bools[other]; has {
+			w.state.Bools[key] = !ov
+			w.state.BoolT[key] = t
+			return !ov
+		}
 	}
 	v := w.choose(2, key) == 0
 	w.state.Bools[key] = v
